@@ -845,8 +845,8 @@ def gen_option_corner(rng, fn):
     if fn == "pagerank_edges":
         n = rng.choice([0, 1, 2, 3, 4, 5])
         edges = gen_edges(rng, n) if n else []
-        c = {"fn": fn, "n": n, "edges": edges, "damping": rng.choice([0.0, 0.5, 0.85, 0.84, 0.86, 0.99, 1.0]),
-             "max_iter": rng.choice([0, 1, 2, 3, 99, 100, 101] + list(range(1, 41))), "tol": rng.choice([0.0, 1e-300, 1e-12, 1e-6, 1e-6, 1e-2, 1.0, 10.0, -1.0])}
+        c = {"fn": fn, "n": n, "edges": edges, "damping": rng.choice([0.0, 0, 1, 0.5, 0.85, 0.84, 0.86, 0.99, 1.0]),
+             "max_iter": rng.choice([0, 1, 2, 3, 99, 100, 101] + list(range(1, 41))), "tol": rng.choice([0.0, 0, 1, 1e-300, 1e-12, 1e-6, 1e-6, 1e-2, 1.0, 10.0, -1.0])}
     elif fn in ("strongly_connected_components_edges", "topological_sort_edges"):
         n = rng.choice([0, 1, 1, 2])
         c = {"fn": fn, "n": n, "edges": [(rng.randrange(n), rng.randrange(n)) for _ in range(rng.randint(0, 3))] if n else []}
@@ -1065,9 +1065,131 @@ def hardening_cases(rng, quick_n, big=False):
         out += [gen_container(rng, fn) for _ in range(max(2, k // 3))]
     for _ in range(2 if not big else 8):
         out += sweep_pagerank(rng)
+    out += [gen_pagerank_work(rng, big) for _ in range(6 if not big else 30)]
     return out
 
 
+
+
+
+def gen_pagerank_work(rng, thorough=False):
+    """class W for the power iteration: slowly mixing chains (damping close to 1, nearly periodic graph) with tol so small that the sweep loop
+    runs max_iter = 129 / 1025 / 2049 / 4097 / 10001 (100001 thorough) times; the scores at sweep k still move, so a silent cap on the number of
+    sweeps changes the answer (judged against the independent reference iteration at the reported sweep count, tolerance 1e-9)"""
+    n = rng.choice([2, 3, 4, 5])
+    edges = [(i, (i + 1) % n) for i in range(n)] + ([(0, 0)] if rng.random() < 0.5 else [(0, n - 1)])
+    mi = rng.choice([129, 1025, 2049, 4097, 10001] + ([100001] if thorough else []))
+    return {"fn": "pagerank_edges", "n": n, "edges": edges, "damping": rng.choice([0.9999, 0.99999, 0.999]), "max_iter": mi,
+            "tol": rng.choice([0.0, 1e-300, 1e-15]), "_family": "W-pagerank-sweeps"}
+
+
+# ---------------------------------------------------------------- class X: float extremes
+XPOOL_POS = [2.0 ** 60, 1e308, 1.7e308, 1e-308, 5e-324, 0.0, -0.0, 33, 33.0, 1e-3, 1.0, float("inf")]
+XPOOL_NEG = [-(2.0 ** 60), -1e308, -1e-3, -1.0, float("-inf")]
+
+
+def gen_extreme(rng, fn):
+    """weights: huge values that cancel (2^60, -2^60, then tiny), values near 1e308 whose sums overflow, denormals, +-0.0, inf, NaN,
+    33 vs 33.0; PageRank: damping / tol as ints, inf, NaN.  Judged differentially (python = rust = default, NaN == NaN, 1e-9 relative)."""
+    if fn == "pagerank_edges":
+        n = rng.randint(1, 4)
+        return {"fn": fn, "n": n, "edges": gen_edges(rng, n), "damping": rng.choice([0, 1, 0.85, 0.5, float("nan"), 1e-308, 5e-324, -0.0, 1 - 1e-16]),      # |damping| > 1 amplifies rounding: not comparable
+                "max_iter": rng.choice([1, 3, 7, 30]), "tol": rng.choice([0, 1, 1e-6, float("inf"), float("nan"), 5e-324, -0.0, 1e308]), "_family": "X"}
+    n = rng.randint(2, 5)
+    neg_ok = fn in ("floyd_warshall", "bellman_ford")
+    nan_ok = rng.random() < 0.25
+    pool = XPOOL_POS + (XPOOL_NEG if neg_ok else []) + ([float("nan")] if nan_ok else [])
+    es = []
+    for _ in range(rng.randint(1, 2 * n + 1)):
+        u, v = rng.randrange(n), rng.randrange(n)
+        es.append((u, v, rng.choice(pool) if rng.random() < 0.8 else rng.randint(0, 5)))
+    if neg_ok and rng.random() < 0.4 and n >= 4:      # the cancelling chain of the class description
+        es = [(0, 1, 2.0 ** 60), (1, 2, -(2.0 ** 60)), (2, 3, rng.choice([1e-3, 5e-324, 1.0])), (0, 3, rng.choice([0.5, 1e-3, 2.0]))] + es[:2]
+        rng.shuffle(es)
+    c = {"fn": fn, "n": n, "edges": es, "_family": "X"}
+    if fn == "floyd_warshall":
+        c["directed"] = rng.random() < 0.6
+    if fn in ("bellman_ford", "dijkstra_edges"):
+        c["source"], c["target"] = rng.randrange(n), rng.choice([None, rng.randrange(n)])
+    if fn == "kruskal":
+        c["allow_forest"] = rng.random() < 0.5
+    return c
+
+
+def _xeq(a, b):
+    """structural equality of canonical observables: NaN == NaN, numbers within 1e-9 relative, -0.0 == 0.0"""
+    if isinstance(a, dict) and isinstance(b, dict):
+        return a.keys() == b.keys() and all(_xeq(a[k], b[k]) for k in a)
+    if isinstance(a, list) and isinstance(b, list):
+        return len(a) == len(b) and all(_xeq(x, y) for x, y in zip(a, b))
+    if a == "nan" or b == "nan":
+        return a == b
+    if isinstance(a, (int, float, str)) and isinstance(b, (int, float, str)) and not isinstance(a, bool) and not isinstance(b, bool):
+        if a in ("inf", "-inf") or b in ("inf", "-inf") or isinstance(a, str) or isinstance(b, str):
+            return a == b
+        return close(a, b)
+    return a == b
+
+
+def _neg_inf_class(P, R):
+    """the known class: python reports a distance -inf where rust reports +inf (matrix) or drops the node (dict) / calls the target unreachable"""
+    def walk(a, b):
+        if isinstance(a, dict) and isinstance(b, dict) and "dict" in a and "dict" in b:
+            da, db = dict(map(tuple, a["dict"])), dict(map(tuple, b["dict"]))
+            if not set(db) <= set(da):
+                return False
+            return all((k in db and _xeq(v, db[k])) or (v == "-inf" and k not in db) for k, v in da.items()) and any(k not in db for k in da)
+        if isinstance(a, list) and isinstance(b, list) and len(a) == len(b):
+            oks = [walk(x, y) for x, y in zip(a, b)]
+            return all(o is not False for o in oks) and any(o == "hit" for o in oks) and "hit" or (all(o is True for o in oks))
+        if a == "-inf" and b == "inf":
+            return "hit"
+        return _xeq(a, b)
+    if P["status"] == R["status"]:
+        w = walk(P["solution"], R["solution"])
+        return w == "hit" or (w is True and isinstance(P["solution"], dict) and P["solution"] != R["solution"])
+    # target mode: python found the target at distance -inf, rust says INFEASIBLE
+    return P["status"] == "OPTIMAL" and P["objective"] == "-inf" and R["status"] == "INFEASIBLE"
+
+
+def judge_extreme(case, outs):
+    """-> list of ('viol' | 'neg-inf', message)"""
+    msgs = []
+    for b, o in outs.items():
+        if o[0] == "hang" or (o[0] == "exc" and o[1] == "Crash"):
+            # known class (same root as the -inf -> +inf mapping): a negative cycle whose sums reach -inf is not detected (-inf + w < -inf is
+            # false) and the Python path reconstruction then follows a parent cycle forever
+            neg = [e[2] for e in case["edges"] if len(e) == 3 and isinstance(e[2], (int, float)) and e[2] < 0]
+            reaches_neg_inf = bool(neg) and (min(neg) == -INF or sum(neg) * max(1, case["n"]) == -INF)
+            if (o[0] == "hang" and b == "python" and case["fn"] == "bellman_ford" and case.get("target") is not None and reaches_neg_inf
+                    and all(outs[x][0] == "ok" for x in ("rust", "default"))):
+                return [("neg-inf", f"{call_str(case)}: backend=python does not return (parent cycle at distance -inf); rust: {outs['rust'][1]['status']}")]
+            return [("viol", f"{call_str(case)}: backend={b} {o}")]
+    kinds = {b: (o[0], o[1] if o[0] == "exc" else None) for b, o in outs.items()}
+    if any(k[0] == "exc" for k in kinds.values()):
+        # the call may raise - but then under every back-end
+        if not all(k[0] == "exc" for k in kinds.values()):
+            msgs.append(("viol", f"{call_str(case)}: raises under some back-ends only: " + ", ".join(f"{b}: {o[0]} {o[1] if o[0] == 'exc' else o[1]['status']}" for b, o in outs.items())))
+        return msgs
+    P, R, D = outs["python"][1], outs["rust"][1], outs["default"][1]
+    fn = case["fn"]
+
+    def view(o):
+        if fn == "pagerank_edges":
+            return (o["status"], o["solution"])
+        if fn in ("bellman_ford", "dijkstra_edges") and case.get("target") is not None:
+            return (o["status"], o["objective"])          # equal-cost paths may differ
+        if fn == "kruskal":
+            return (o["status"], o["objective"], None if o["solution"] is None else len(o["solution"]))
+        return (o["status"], o["solution"], o["objective"])
+    if not _xeq(list(view(D)), list(view(R))):
+        msgs.append(("viol", f"{call_str(case)}: default {view(D)} differs from rust {view(R)}"))
+    if not _xeq(list(view(P)), list(view(R))):
+        kind = "neg-inf" if fn in ("bellman_ford", "dijkstra_edges", "floyd_warshall") and _neg_inf_class(P, R) else "viol"
+        if fn == "kruskal" and P["status"] == R["status"] and any(isinstance(e[2], float) and e[2] != e[2] for e in case["edges"]):
+            kind = "nan-order"      # known class: a NaN weight makes the two sorts (Python sorted / Rust sort_by with partial_cmp) order the edges differently
+        msgs.append((kind, f"{call_str(case)}: python {view(P)} vs rust {view(R)}"))
+    return msgs
 
 
 # ====================================================================== class H: rare internal histories (event-directed top-up)
@@ -1596,12 +1718,88 @@ def big_parallel(m):
                  lambda r: None if (r.status.name == "OPTIMAL" and r.objective == 1 and r.solution == [0, 1]) else f"{r.status.name} {r.objective}")
     p += _expect(f"dijkstra_edges on parallel(m={m})", _trio("dijkstra_edges", 2, es, 0, target=1),
                  lambda r: None if (r.status.name == "OPTIMAL" and r.objective == 1 and r.solution == [0, 1]) else f"{r.status.name} {r.objective}")
+    p += _expect(f"dijkstra_edges on parallel(m={m}), no target (one heap entry per arc: each is lighter than the one before)", _trio("dijkstra_edges", 2, es, 0),
+                 lambda r: None if (r.status.name == "OPTIMAL" and r.solution == {0: 0, 1: 1}) else f"{r.status.name} {r.solution}")
+    p += _expect(f"bellman_ford on parallel(m={m}), no target", _trio("bellman_ford", 0, es, 2),
+                 lambda r: None if (r.status.name == "OPTIMAL" and r.solution == {0: 0, 1: 1}) else f"{r.status.name} {r.solution}")
     p += _expect(f"kruskal on parallel(m={m})", _trio("kruskal", 2, es),
                  lambda r: None if (r.status.name == "OPTIMAL" and r.objective == 1 and len(r.solution) == 1) else f"{r.status.name} {r.objective}")
     return p
 
 
-BIG = {"dense_pendant": big_dense_pendant, "ring": big_ring, "kruskal_balanced": big_kruskal_balanced, "fw_line": big_fw_line, "parallel": big_parallel}
+def big_bf_reversed(n, with_target=False):
+    """chain 0 -> 1 -> ... -> n-1 (unit weights) listed BACKWARDS: the in-place relaxation advances one node per round, so all n-1 rounds
+    are needed (n-1 rounds x n-1 arcs inner steps); dist[i] = i by construction"""
+    es = [(i, i + 1, 1) for i in range(n - 2, -1, -1)]
+    want = {i: i for i in range(n)}
+    p = _expect(f"bellman_ford on reversed_chain(n={n}), no target", _trio("bellman_ford", 0, es, n),
+                lambda r: None if (r.status.name == "OPTIMAL" and r.solution == want) else f"{r.status.name}; dist[{n - 1}]={None if r.solution is None else r.solution.get(n - 1)} expected {n - 1}")
+    if with_target:
+        p += _expect(f"bellman_ford on reversed_chain(n={n}), target=last", _trio("bellman_ford", 0, es, n, target=n - 1),
+                     lambda r: None if (r.status.name == "OPTIMAL" and r.objective == n - 1 and r.solution == list(range(n))) else f"{r.status.name} objective {r.objective}")
+    return p
+
+
+def big_star(n, which):
+    """node 0 points to every other node: the queue / stack / heap / ready list holds n-1 entries at once"""
+    tag = f"{which} on star(n={n})"
+    pairs = [(0, i) for i in range(1, n)]
+    if which in ("bfs_edges", "dfs_edges"):
+        found = "OPTIMAL" if which == "bfs_edges" else "FEASIBLE"
+        p = _expect(tag + ", no target", _trio(which, n, pairs, 0), lambda r: None if (r.status.name == "OPTIMAL" and r.solution == list(range(n))) else f"{r.status.name}, {len(r.solution or [])} nodes")
+        for t in (1, n // 2, n - 1):
+            p += _expect(tag + f", target={t}", _trio(which, n, pairs, 0, target=t),
+                         lambda r, t=t: None if (r.status.name == found and r.solution == [0, t] and r.objective == 1) else f"{r.status.name} {str(r.solution)[:30]}")
+        return p
+    if which == "dijkstra_edges":
+        es = [(0, i, n - i) for i in range(1, n)]
+        p = _expect(tag + ", no target", _trio(which, n, es, 0), lambda r: None if (r.status.name == "OPTIMAL" and r.solution == {i: (n - i if i else 0) for i in range(n)}) else f"{r.status.name}")
+        p += _expect(tag + ", target=1 (popped last)", _trio(which, n, es, 0, target=1), lambda r: None if (r.status.name == "OPTIMAL" and r.objective == n - 1 and r.solution == [0, 1]) else f"{r.status.name} {r.objective}")
+        return p
+    if which == "topological_sort_edges":
+        def chk(r):
+            if r.status.name != "OPTIMAL" or r.objective != n or r.solution[0] != 0 or sorted(r.solution) != list(range(n)):
+                return f"{r.status.name} objective {r.objective}; not a permutation starting with the hub"
+        return _expect(tag, _trio(which, n, pairs), chk)
+    return []
+
+
+def _scc_one(n, shape, backend):
+    f = _fn("strongly_connected_components_edges")
+    es = [(i, i + 1) for i in range(n - 1)] + ([(n - 1, 0)] if shape == "ring" else [])
+    r = f(n, es) if backend == "default" else f(n, es, backend=backend)
+    if shape == "ring":
+        ok = r.status.name == "OPTIMAL" and len(r.solution) == 1 and sorted(r.solution[0]) == list(range(n)) and r.objective == 1
+    else:
+        ok = r.status.name == "OPTIMAL" and r.objective == n and r.solution == [[i] for i in range(n - 1, -1, -1)]
+    return None if ok else f"{r.status.name}, {len(r.solution)} components, objective {r.objective}"
+
+
+SCC_DEPTH_ID = "C12-rust-scc-stack-overflow"
+NEG_INF_ID = "C12-rust-neg-inf-distance"
+NAN_ID = "C12-kruskal-nan-weight"
+
+
+def scc_deep(ctx, n, shape):
+    """recursion depth n of Tarjan's strongconnect: a path (n singleton components, sinks first) / a ring (one component); every back-end in
+    its own child, because a native stack overflow kills the process"""
+    res = {}
+    for b in ("python", "rust", "default"):
+        r = _in_child(_scc_one, n, shape, b, timeout=120.0)
+        res[b] = "ok" if r == ("ok", None) else (r[1] if r[0] == "ok" else f"{r[0]}: {r[1:] if len(r) > 1 else ''}")
+    ctx.evaluations += 3
+    bad = {b: v for b, v in res.items() if v != "ok"}
+    if not bad:
+        return
+    what = f"strongly_connected_components_edges({n}, {'ring' if shape == 'ring' else 'path'} 0->1->..->{n - 1}{'->0' if shape == 'ring' else ''}): " + ", ".join(f"backend={b}: {v}" for b, v in res.items())
+    if res["python"] == "ok" and n >= 45000 and all(str(v).startswith("crash") for v in bad.values()):
+        opens = [f for f in ctx.open_findings() if "scc" in (f.get("id", "") + f.get("class", "")).lower() and "stack" in (f.get("id", "") + f.get("class", "")).lower()]
+        ctx.known_hit(opens[0]["id"] if opens else SCC_DEPTH_ID, what + "  (recursive strongconnect in rust/src/algorithms/scc.rs overflows the native stack; the Python path answers)")
+    else:
+        ctx.violation(what, {"scc_deep": [n, shape], "observed": res})
+
+
+BIG = {"bf_reversed": big_bf_reversed, "star": big_star, "dense_pendant": big_dense_pendant, "ring": big_ring, "kruskal_balanced": big_kruskal_balanced, "fw_line": big_fw_line, "parallel": big_parallel}
 
 
 def big_plan(rng, thorough=False):
@@ -1621,8 +1819,48 @@ def big_plan(rng, thorough=False):
     plan.append(("kruskal_balanced", [rng.choice([1024, 4096, 65536 if thorough else 8192]), rng.randrange(1000)]))
     plan.append(("kruskal_balanced", [rng.choice([16, 32, 64]), rng.randrange(1000)]))
     plan.append(("fw_line", [rng.choice([65, 97])]))
-    plan.append(("parallel", [rng.choice([2049, 66000])]))
+    plan.append(("fw_line", [104 if not thorough else 162]))          # n^3 > 2^20 (2^22) inner steps of the k-i-j loop
+    plan.append(("parallel", [rng.choice([2049, 4099])]))
+    plan.append(("parallel", [rng.choice([10001, 66000])]))          # > 10^4 stale heap entries / kernel edge-loop steps
+    plan.append(("bf_reversed", [rng.choice([129, 1025, 2049]), True]))
+    plan.append(("bf_reversed", [4099 + rng.randrange(3), thorough]))  # > 2^12 rounds, 1.7 * 10^7 inner steps
+    for which in ("bfs_edges", "dfs_edges", "dijkstra_edges", "topological_sort_edges"):
+        plan.append(("star", [rng.choice([4097, 10001, 100001]), which]))
+    lin = ["bfs_edges", "dfs_edges", "dijkstra_edges", "topological_sort_edges", "kruskal", "pagerank_edges"]
+    for which in (lin if thorough else rng.sample(lin, 1)):
+        plan.append(("ring", [2 ** 20 + 2, which]))                    # 2^20 + 2 nodes for the linear-time routines
     return plan
+
+
+def work_counts(plan):
+    """iterations of each internal loop reached by the by-construction instances of this run (maximum per loop)"""
+    w = {}
+
+    def up(k, v):
+        w[k] = max(w.get(k, 0), int(v))
+    for name, a in plan:
+        if name == "bf_reversed":
+            up("bellman_ford.rounds", a[0] - 1)
+            up("bellman_ford.inner_relaxations", (a[0] - 1) ** 2)
+        elif name == "fw_line":
+            up("floyd_warshall.kij_steps", a[0] ** 3)
+        elif name == "parallel":
+            up("dijkstra.heap_entries", a[0])
+            up("floyd_warshall.edge_loop", 2 * a[0])
+            up("kruskal.sorted_edges", 2 * a[0])
+            up("bellman_ford.arcs_per_round", 2 * a[0])
+        elif name == "star":
+            up({"bfs_edges": "bfs.queue_length", "dfs_edges": "dfs.stack_length", "dijkstra_edges": "dijkstra.heap_entries", "topological_sort_edges": "topo.ready_list"}[a[1]], a[0] - 1)
+        elif name == "ring":
+            up({"bfs_edges": "bfs.pops", "dfs_edges": "dfs.pops", "dijkstra_edges": "dijkstra.pops", "bellman_ford": "bellman_ford.arcs_per_round",
+                "topological_sort_edges": "topo.pops", "kruskal": "kruskal.sorted_edges", "pagerank_edges": "pagerank.nodes_per_sweep",
+                "strongly_connected_components_edges": "scc.nodes"}[a[1]], a[0])
+        elif name == "dense_pendant":
+            m = a[0] * (a[0] - 1) // 2
+            up({"bfs_edges": "bfs.arc_scans", "dfs_edges": "dfs.pops", "dijkstra_edges": "dijkstra.heap_entries"}[a[2]], m if (a[2] != "dijkstra_edges" or (len(a) > 3 and a[3] == "quadratic")) else a[0])
+        elif name == "kruskal_balanced":
+            up("kruskal.unions", a[0] - 1)
+    return w
 
 
 def run_big(name, args):
@@ -1659,7 +1897,73 @@ def gen_sequence(rng):
     if rng.random() < 0.35:                       # the same call twice, and the same call under another back-end right after
         st = dict(rng.choice(steps))
         steps += [st, dict(st, backend=rng.choice(["python", "rust", "default"]))]
-    return {"kind": "seq", "n": n, "edges": edges, "container": rng.choice(["list", "list", "list", "tuple"]), "steps": steps}
+    container = rng.choice(["list", "list", "list", "tuple"])
+    if container == "list" and rng.random() < 0.7:
+        # class A2: edit the caller's list IN PLACE between calls (same object, often the same length), then repeat earlier calls - same
+        # function / options / back-end, and other functions of the same module - against a fresh call on a copy of the edited content
+        out = []
+        calls = []
+        for st in steps:
+            out.append(st)
+            calls.append(st)
+            if rng.random() < 0.6:
+                out.append(gen_edit(rng, n, weighted))
+                again = [dict(rng.choice(calls)) for _ in range(rng.randint(1, 2))] + [dict(st)]
+                rng.shuffle(again)
+                if rng.random() < 0.5:
+                    again.append(dict(again[-1], backend=rng.choice(["python", "rust", "default"])))
+                out += again
+        steps = out[:14]
+    return {"kind": "seq", "n": n, "edges": edges, "container": container, "steps": steps}
+
+
+def gen_edit(rng, n, weighted):
+    def edge():
+        return (rng.randrange(n), rng.randrange(n), rng.choice([0, 1, 2, 3, 7, 20, 2.5])) if weighted else (rng.randrange(n), rng.randrange(n))
+    op = rng.choice(["replace", "replace", "reweight", "append", "pop", "swap", "reverse", "slice-same-length", "clear-extend"])
+    return {"edit": op, "i": rng.randrange(64), "j": rng.randrange(64), "edge": edge(), "edges": [edge() for _ in range(rng.randint(0, 4))]}
+
+
+def apply_edit(lst, ed):
+    """in-place edit of the caller's list (never rebinding); indices are taken modulo the current length"""
+    op, m = ed["edit"], len(lst)
+    e = tuple(ed["edge"])
+    if op == "replace" and m:
+        lst[ed["i"] % m] = e
+    elif op == "reweight" and m:
+        old = lst[ed["i"] % m]
+        lst[ed["i"] % m] = (old[0], old[1], e[2]) if len(old) == 3 else (old[1], old[0])
+    elif op == "append" or (not m and op in ("replace", "reweight", "pop", "swap")):
+        lst.append(e)
+    elif op == "pop":
+        lst.pop(ed["i"] % m)
+    elif op == "swap":
+        a, b = ed["i"] % m, ed["j"] % m
+        lst[a], lst[b] = lst[b], lst[a]
+    elif op == "reverse":
+        lst.reverse()
+    elif op == "slice-same-length":
+        new = [tuple(x) for x in ed["edges"]]
+        new = (new * (m + 1))[:m] if new else list(lst)
+        lst[:] = new[::-1] if new == list(lst) else new
+    elif op == "clear-extend":
+        lst.clear()
+        lst.extend(tuple(x) for x in ed["edges"])
+
+
+def edit_str(ed, var="e"):
+    op = ed["edit"]
+    if op in ("replace", "reweight"):
+        return f"{var}[{ed['i']} % len({var})] <- {op} {tuple(ed['edge'])}"
+    if op == "append":
+        return f"{var}.append({tuple(ed['edge'])})"
+    if op == "pop":
+        return f"{var}.pop({ed['i']} % len({var}))"
+    if op == "swap":
+        return f"swap {var}[{ed['i']} % len], {var}[{ed['j']} % len]"
+    if op == "reverse":
+        return f"{var}.reverse()"
+    return f"{var}[:] <- {op} {[tuple(x) for x in ed['edges']]}"
 
 
 def _obs_result(res):
@@ -1675,6 +1979,13 @@ def run_sequence(seq):
         shared = tuple(shared)
     out = []
     for st in seq["steps"]:
+        if "edit" in st:
+            if isinstance(shared, list):
+                apply_edit(shared, st)
+                pristine = [tuple(e) for e in shared]
+                ids = [id(x) for x in shared]
+            out.append({"shared": None, "fresh": None, "modified": None, "content": [list(x) for x in pristine]})
+            continue
         case = dict(st, n=seq["n"], edges=pristine)
         backend = None if st["backend"] == "default" else st["backend"]
         rec = {}
@@ -1710,6 +2021,8 @@ def run_sequence(seq):
 
 
 def step_str(seq, st, var="e"):
+    if "edit" in st:
+        return edit_str(st, var)
     c = dict(st, n=seq["n"], edges=[])
     b = None if st["backend"] == "default" else st["backend"]
     return call_str(c, b).replace("[]", var, 1)
@@ -1718,12 +2031,18 @@ def step_str(seq, st, var="e"):
 def judge_sequence(seq, recs):
     """-> None | message naming the first offending call of the sequence"""
     prefix = f"e = {tuple(map(tuple, seq['edges'])) if seq.get('container') == 'tuple' else [tuple(x) for x in seq['edges']]}; "
+    content = None
     for k, (st, rec) in enumerate(zip(seq["steps"], recs)):
         hist = "; ".join(step_str(seq, s_) for s_ in seq["steps"][:k + 1])
+        if "edit" in st:
+            content = rec.get("content")
+            continue
+        if content is not None:
+            hist += f"  [e is now {[tuple(x) for x in content]}]"
         if rec["modified"]:
             return prefix + hist + f"  -> the caller's edge list was modified by call #{k + 1}: {rec['modified']}"
         if rec["shared"] != rec["fresh"]:
-            return prefix + hist + f"  -> call #{k + 1} on the shared list returns {rec['shared']}, the same call on a fresh copy returns {rec['fresh']} (answer depends on earlier calls)"
+            return prefix + hist + f"  -> call #{k + 1} on the shared list returns {rec['shared']}, the same call on a fresh copy returns {rec['fresh']} (the answer depends on earlier calls / on the content the object had before it was edited in place)"
         if isinstance(rec["shared"], list):
             return prefix + hist + f"  -> call #{k + 1} failed: {rec['shared']}"
     return None
@@ -2109,7 +2428,14 @@ def run(ctx: Ctx):
     large_witnesses(ctx)
 
     # ---- class S (large, by construction) : each item in its own child
-    for name, args in big_plan(ctx.rng, big):
+    plan = big_plan(ctx.rng, big)
+    work = work_counts(plan)
+    for n_, shape_ in [(4099, "path"), (10001, "ring"), (40000, "path"), (50001, ctx.rng.choice(["path", "ring"]))] + ([(2 ** 20 + 2, "path")] if big else []):
+        scc_deep(ctx, n_, shape_)
+        work["scc.recursion_depth"] = max(work.get("scc.recursion_depth", 0), n_)
+    work["pagerank.sweeps"] = max([c["max_iter"] for c in cases if c["fn"] == "pagerank_edges"] + [0])
+    ctx.extra["work_max_per_loop"] = work
+    for name, args in plan:
         r = _in_child(run_big, name, args, timeout=180.0)
         ctx.evaluations += 3
         ctx.count("big", name)
@@ -2117,6 +2443,34 @@ def run(ctx: Ctx):
             ctx.violation(f"structured large instance {name}{tuple(args)}: the run {r[0]}: {r[1:]}", {"big": name, "args": args})
         elif r[1]:
             ctx.violation(f"structured large instance {name}{tuple(args)} (answer known by construction): {r[1][0]}", {"big": name, "args": args, "all": r[1][:6]})
+
+    # ---- class X: float extremes, judged differentially (and against "raises under every back-end or under none")
+    xcases = [gen_extreme(ctx.rng, fn) for fn in W_FNS + ["pagerank_edges"] for _ in range(ctx.budget(40, 400))]
+    xcases += [{"fn": "bellman_ford", "n": 3, "edges": [(0, 1, -1e308), (1, 2, -1e308)], "source": 0, "target": None, "_family": "X"},
+               {"fn": "floyd_warshall", "n": 3, "edges": [(0, 1, -1e308), (1, 2, -1e308)], "directed": True, "_family": "X"},
+               {"fn": "bellman_ford", "n": 4, "edges": [(0, 1, 2.0 ** 60), (1, 2, -(2.0 ** 60)), (2, 3, 1e-3), (0, 3, 0.5)], "source": 0, "target": 3, "_family": "X"},
+               {"fn": "dijkstra_edges", "n": 3, "edges": [(0, 1, 1e308), (1, 2, 1e308)], "source": 0, "target": 2, "_family": "X"},
+               {"fn": "bellman_ford", "n": 3, "edges": [(0, 1, -1e308), (1, 0, -1e308)], "source": 0, "target": 1, "_family": "X"}]
+    n_x, neg_hits, nan_hits = 0, [], []
+    for case, outs in zip(xcases, run_cases(xcases)):
+        ctx.evaluations += 3
+        ctx.count("family", "X:" + case["fn"].replace("_edges", ""))
+        for kind, msg in judge_extreme(case, outs):
+            if kind == "neg-inf":
+                neg_hits.append(msg)
+            elif kind == "nan-order":
+                nan_hits.append(msg)
+            else:
+                n_x += 1
+                if n_x <= 3:
+                    ctx.violation("float extremes: " + msg, {"xcase": clean(case), "outs": outs})
+    if neg_hits:
+        opens = [f for f in ctx.open_findings() if "inf" in (f.get("id", "") + f.get("class", "")).lower()]
+        ctx.known_hit(opens[0]["id"] if opens else NEG_INF_ID, f"{len(neg_hits)} case(s), first: {neg_hits[0]}  (the rust bindings turn a distance of -inf into +inf)")
+
+    if nan_hits:
+        opens = [f for f in ctx.open_findings() if "nan" in (f.get("id", "") + f.get("class", "")).lower()]
+        ctx.known_hit(opens[0]["id"] if opens else NAN_ID, f"{len(nan_hits)} case(s), first: {nan_hits[0]}  (kruskal with a NaN weight: the back-ends sort the edges differently)")
 
     # ---- class A: one shared input object through consecutive calls (different functions / options / back-ends, random order)
     seqs = []
@@ -2199,6 +2553,19 @@ def replay(obj):
             print(step_str(q, st), "->", rec["shared"], "| modified:", rec["modified"])
         print("VIOLATES: " + msg if msg else "oracle verdict: ok")
         return 1 if msg else 0
+    if obj.get("xcase"):
+        setup()
+        case = dict(obj["xcase"], edges=[tuple(float(x) if isinstance(x, str) else x for x in e) for e in obj["xcase"]["edges"]])
+        for k in ("damping", "tol"):
+            if isinstance(case.get(k), str):
+                case[k] = float(case[k])
+        outs = run_case_isolated(case)
+        for b in outs:
+            print(b, "->", outs[b])
+        msgs = judge_extreme(case, outs)
+        for k, m in msgs:
+            print(("VIOLATES: " if k == "viol" else "KNOWN CLASS (-inf): ") + m)
+        return 1 if any(k == "viol" for k, _ in msgs) else 0
     if obj.get("big"):
         setup()
         r = _in_child(run_big, obj["big"], obj["args"], timeout=300.0)
